@@ -400,32 +400,37 @@ func GenMatrix(r *rand.Rand, m MatrixCell, pf Profile) *Scenario {
 	return sc
 }
 
-// GenStorm builds a scenario of the high-contention leg: K plain rerunners
-// that all read cell 0 (equal minRerunInterval, so they re-run together) and a
-// chain of storm writes, each of which invalidates cell 0's resource at the
-// moment the re-runs triggered by the previous write register it.
+// GenStorm builds a scenario of the high-contention leg: K rerunners that
+// read cell 0 directly and through F concurrently evaluated cached children
+// each (equal minRerunInterval, so they re-run together and the resource has
+// K*(F+1) dependants), and a chain of storm writes, each of which invalidates
+// cell 0's resource at the moment the re-runs triggered by the previous write
+// register it.
 func GenStorm(r *rand.Rand) *Scenario {
 	sc := &Scenario{Name: "storm", Cells: 2, WaitFirst: true}
 	sc.YieldSeed = r.Int63()
 	sc.Intensity = []int{0, 0, 10, 25}[r.Intn(4)]
 	sc.ParallelEnd = true
-	k := 8 + r.Intn(17)
+	k := 4 + r.Intn(9)
+	f := r.Intn(11)
 	iv := 200 + r.Intn(200)
+	regs := 0
 	for i := 0; i < k; i++ {
-		p := &PNode{Name: fmt.Sprintf("s%d", i), Leaves: []int{0}}
-		switch r.Intn(5) {
-		case 0:
+		p := &PNode{Name: fmt.Sprintf("s%d", i), Leaves: []int{0}, Par: true}
+		if r.Intn(5) == 0 {
 			p.Leaves = []int{1, 0}
-		case 1: // through a cached child (the child's node registers)
-			p.Leaves = nil
-			p.Kids = []*PNode{{Name: "c", Key: "c", Leaves: []int{0}}}
+		}
+		regs++
+		for j := 0; j < f; j++ {
+			p.Kids = append(p.Kids, &PNode{Name: fmt.Sprintf("c%d", j), Key: fmt.Sprintf("c%d", j), Leaves: []int{0}})
+			regs++
 		}
 		sc.RRs = append(sc.RRs, &RRSpec{Plan: p, Spawn: r.Intn(2) == 0, MinInterval: iv})
 	}
 	ops := []Op{{Kind: "write", Cell: 0, Style: WInvalidate}}
 	rounds := 8 + r.Intn(9)
 	for i := 0; i < rounds; i++ {
-		ops = append(ops, Op{Kind: "stormwrite", Cell: 0, RR: 1 + k*(1+r.Intn(3))/4, US: 2500})
+		ops = append(ops, Op{Kind: "stormwrite", Cell: 0, RR: 1 + regs*(1+r.Intn(3))/4, US: 2500})
 		if r.Intn(4) == 0 {
 			ops = append(ops, Op{Kind: "write", Cell: 1, Style: styleFor(r)})
 		}
